@@ -14,7 +14,7 @@ TraceNext == /\ l <= Len(JTrace)
              /\ l' = l + 1
 TraceSpec == TraceInit /\ [][TraceNext]_tvars
 OK_C03 == "C03" \notin bad
-OK_C04 == "C04" \notin bad
+OK_C04 == bad \cap {"C04", "C03", "C09", "ENV"} = {}      \* no hang, tables change only as the envelope predicts
 OK_C05 == "C05" \notin bad
 OK_C07 == "C07" \notin bad
 OK_C08 == "C08" \notin bad /\ "ENV" \notin bad
